@@ -9,7 +9,7 @@ CONSTANTS
   NBodies = 8
   NEndpoints = 8
   Kinds = {"echo"}
-  NOptions = 3
+  NOptions = 2
   UnderscoreNames = FALSE
 INVARIANT GeneratedAreWellFormed
 INVARIANT EncodingsAgree
